@@ -83,6 +83,11 @@ STRENGTHENED = {
     "C07-12": "C07 missed it: family 'id-after-reply' (plain handshake, storrent the server: the peer sends its id only after it has read storrent's handshake)",
     "C11-10": "C11 missed it: the observer stops reading 20 s before a PEX tick, its writer queue is filled exactly, an arrival is pending at the tick; then it reads again and the newcomer leaves, comes back and leaves",
     "C11-11": "C11 missed it (and C09): family 'adverts before metadata' (magnet torrent; have-all / have-none / have / bitfield sequences before the metadata is known, then metadata, unchoke, demand)",
+    # fifth round (k = 13, 14; twelve properties)
+    "C08-14": "C08 missed it: after a crypto_select with both method bits set the reference responder also carries on in plaintext (it only ever encrypted), 128 more cells; the policy clauses judge whatever storrent then establishes",
+    "C09-13": "C09 missed it (C14 caught it): part 'webseed-release' — C14's writer and fetch workload run on C09's behalf, reporting only in-flight leaks and over-releases",
+    "C11-13": "C11 missed it: PEX observers and pool peers send keep-alives (storrent had been timing the observers out five minutes into every history, so the final 'every departure reported' check ran in 0.3 % of them; now in all); the whole pool (55-74 peers) arrives within one PEX interval, then peers from both messages leave, return and leave",
+    "C12-14": "C12 and C13 missed it: single-file dictionaries with a negative length in (-piece length, 0) next to exactly one piece hash (truncating division), over the magnet path and as .torrent; an accepted negative total is a geometry violation",
 }
 rows = []
 for d in sorted(glob.glob(os.path.join(ROOT, "seeded", "C[0-9][0-9]-*"))):
